@@ -2,9 +2,9 @@ CONSTANTS
   FromCheck = TRUE
   CurrentCheck = TRUE
   OriginDecrement = TRUE
-  OriginTotal = TRUE
+  OriginTotal = FALSE
   DenomCheck = TRUE
-  MaxTx = 2
+  MaxTx = 1
   MaxOps = 3
 INIT Init
 NEXT Next
